@@ -18,9 +18,12 @@ FDFLAG_APPEND = 1
 INITIAL_TREE = [('d', 'dir1'), ('d', 'dir2'), ('d', 'dir2/sub'), ('d', 'emptydir'),
                 ('f', 'a', b'alpha-contents-0123456789'), ('f', 'b.txt', b'B' * 100), ('f', 'empty', b''),
                 ('f', 'dir1/x', bytes(range(256)) * 3), ('f', 'dir2/sub/y', b'deep'), ('l', 'lnk', 'a'), ('l', 'dlnk', 'dir1'),
-                ('l', 'dangling', 'nowhere'), ('l', 'devnull', '/dev/null')]
+                ('l', 'dangling', 'nowhere'), ('l', 'devnull', '/dev/null'),
+                # further character devices with their own answers: /dev/full refuses every write with ENOSPC, /dev/zero delivers
+                # as many zero bytes as asked for
+                ('l', 'devfull', '/dev/full'), ('l', 'devzero', '/dev/zero')]
 FILE_NAMES = ['a', 'b.txt', 'empty', 'dir1/x', 'dir2/sub/y', 'new1', 'new2', 'dir1/new3', 'dir2/new4', 'lnk', 'dangling',
-              'missing/z', 'dir1', 'emptydir', 'dlnk/x', 'a/b', 'dir1/../a', './b.txt', 'dir2//sub/y', 'dlnk', 'devnull']
+              'missing/z', 'dir1', 'emptydir', 'dlnk/x', 'a/b', 'dir1/../a', './b.txt', 'dir2//sub/y', 'dlnk', 'devnull', 'devfull', 'devzero']
 
 
 def make_tree(root, spec=INITIAL_TREE):
